@@ -61,7 +61,7 @@ func TestC18(t *testing.T) {
 	defer r.Finish()
 	var batch []*ethtypes.Transaction
 	enc := encoding.MakeConfig(app.ModuleBasics)
-	n := r.Pick(48000, 4000000)
+	n := r.Cases(48000, 4000000)
 	for i := 0; i < n; i++ {
 		if i%r.NShards != r.Shard.Shard && !r.Replaying() {
 			continue
